@@ -17,6 +17,7 @@ def dispatch (mode : String) : Option (List String → Verdict) :=
   | "C01" => some SockModel.Drive.C01.runCaseC01
   | "C07s" => some SockModel.Drive.C01.runCaseC07
   | "C16" => some SockModel.Drive.C01.runCaseC16
+  | "C16step" => some SockModel.Drive.C01.runCaseC16step
   | "C04" => some SockModel.Drive.C04.runCaseC04
   | "C05" => some SockModel.Drive.C04.runCaseC05
   | "C08" => some SockModel.Drive.C04.runCaseC08
